@@ -161,17 +161,17 @@ type c20Cfg struct {
 	initPkts  protocol.ByteCount // initial window in packets
 	belowMax  protocol.ByteCount // if > 0: initial window = configured maximum - belowMax packets
 	depth     int
-	sizes     []int // send size classes: 0 full, 1 half, 2 one byte, 3 full-1
-	nonRetr   bool  // also send non-retransmittable (pure ACK) packets of 40 bytes
-	fill      bool  // "fill": full-size packets until the window is used up
-	burst     bool  // "burst": full-size packets back to back for as long as the pacer authorises them
-	paced     int   // "paced": this many times { wait until TimeUntilSend; send a full-size packet if authorised }
-	early     int   // "early": this many times { advance to the earliest instant at which HasPacingBudget is true; send a full-size packet }
-	advGate   bool  // "advgate": advance the clock to the earliest instant at which HasPacingBudget is true
+	sizes     []int                // send size classes: 0 full, 1 half, 2 one byte, 3 full-1
+	nonRetr   bool                 // also send non-retransmittable (pure ACK) packets of 40 bytes
+	fill      bool                 // "fill": full-size packets until the window is used up
+	burst     bool                 // "burst": full-size packets back to back for as long as the pacer authorises them
+	paced     int                  // "paced": this many times { wait until TimeUntilSend; send a full-size packet if authorised }
+	early     int                  // "early": this many times { advance to the earliest instant at which HasPacingBudget is true; send a full-size packet }
+	advGate   bool                 // "advgate": advance the clock to the earliest instant at which HasPacingBudget is true
 	startMTU  protocol.ByteCount   // if > 0: start state = path MTU discovery already raised the datagram size to this value
 	mtuSteps  []protocol.ByteCount // sizes of the MTU increases of the alphabet (nil: +80)
-	acks      []int // 0 oldest, 1 newest, 2 all outstanding (one ACK frame)
-	losses    []int // 0 oldest, 1 newest
+	acks      []int                // 0 oldest, 1 newest, 2 all outstanding (one ACK frame)
+	losses    []int                // 0 oldest, 1 newest
 	rtts      []time.Duration
 	maxRTTOps int
 	maxMTU    int
